@@ -1,8 +1,11 @@
 (** [flatten]: the body of the [for el in path] loop, as the generated step function over
-    (start_pt, last_pt, what was handed to the callback), against the model's [fl_step] at [keep = true].
-    The [CurveTo] arm is not translated (spec [skip_arms]); the statement says nothing about it. *)
-From Coq Require Import ZArith List Bool.
-From KV Require Import Scalar Geom Curves Path Flatten.
+    (start_pt, last_pt, quad_buf, what was handed to the callback), against the model's [fl_step] at [keep = true],
+    all five arms; then the whole function (the fold over the path around that step) against the model's [flatten].
+    The model is [None] when the [while target < ..] loop of the [CurveTo] arm would run past its own bound
+    [n + 1 - i] ("runaway", shown empty in exact arithmetic by the C05 proofs): the statements are agreement wherever
+    the model is defined.  [quad_buf] is scratch space (cleared before use): the statements ignore its final value. *)
+From Coq Require Import ZArith QArith List Bool Floats Lia.
+From KV Require Import Scalar Geom Curves Path Flatten ToQuads.
 From KVGen Require Gen.
 From KVBridge Require Import BridgeLib.
 Import ListNotations.
@@ -10,15 +13,12 @@ Import ListNotations.
 Section F.
 Context {T : Type} `{Scalar T}.
 
-Definition sim_fl_step (start last : option (Point T)) (out : list (PathEl T)) (el : PathEl T) (tolerance sqrt_tol : T)
-    (g : option unit * option (Point T) * option (Point T) * list (PathEl T)) : Prop :=
-  match el with
-  | CurveTo _ _ _ => True
-  | _ =>
-      match fl_step true tolerance sqrt_tol (start, last) el with
-      | Some ((start', last'), em) => g = (None, start', last', out ++ em)
-      | None => True
-      end
+Definition sim_fl_step (start last : option (Point T)) (qb : list (QuadBez T * FlattenParams T)) (out : list (PathEl T))
+    (el : PathEl T) (tolerance sqrt_tol : T)
+    (g : option unit * option (Point T) * option (Point T) * list (QuadBez T * FlattenParams T) * list (PathEl T)) : Prop :=
+  match fl_step true tolerance sqrt_tol (start, last) el with
+  | Some ((start', last'), em) => (let '(o, s, l, _, c) := g in (o, s, l, c)) = (None, start', last', out ++ em)
+  | None => True
   end.
 
 (* a loop that pushes one element per item is an append of a map *)
@@ -30,19 +30,149 @@ Proof.
   rewrite IH. cbn [map]. rewrite <- app_assoc. reflexivity.
 Qed.
 
+(** *** the [CurveTo] arm.  Consuming [c.to_quads(..)] (calling the generated [next] until [None]) yields the model's
+    [fl_to_quads] list *)
+(* owner: to_quads_next *)
+Lemma fl_to_quads_next (c : CubicBez T) (i n : Z) :
+  Gen.to_quads_next (c, i, n) = (if Z.eqb i n then (None, (c, i, n)) else (Some (fl_to_quad c n i), (c, Z.add i 1, n))).
+Proof. reflexivity. Qed.
+
+Lemma fl_drain_S {St A : Type} (next : St -> option A * St) (k : nat) (s : St) :
+  Gen.tr_drain next (S k) s = match next s with (Some a, s') => a :: Gen.tr_drain next k s' | (None, _) => [] end.
+Proof. reflexivity. Qed.
+
+Lemma fl_drain (c : CubicBez T) (n : Z) : forall (k : nat) (i : Z), n = Z.add i (Z.of_nat k) ->
+  Gen.tr_drain Gen.to_quads_next (S k) (c, i, n) = map (fun j => fl_to_quad c n (Z.add i (Z.of_nat j))) (seq 0 k).
+Proof.
+  induction k as [|k IH]; intros i E; rewrite fl_drain_S, fl_to_quads_next.
+  - replace (Z.eqb i n) with true by (symmetry; apply Z.eqb_eq; lia). reflexivity.
+  - replace (Z.eqb i n) with false by (symmetry; apply Z.eqb_neq; lia).
+    cbn [seq map]. rewrite Z.add_0_r. f_equal.
+    rewrite (IH (Z.add i 1)) by lia. rewrite <- seq_shift, map_map.
+    apply map_ext. intro j. f_equal. lia.
+Qed.
+
+Lemma fl_drain_all (c : CubicBez T) (acc : T) :
+  Gen.tr_drain Gen.to_quads_next (S (Z.to_nat (Z.sub (fl_to_quads_n c acc) 0))) (c, 0%Z, fl_to_quads_n c acc) = fl_to_quads c acc.
+Proof.
+  assert (N : (1 <= fl_to_quads_n c acc)%Z) by (unfold fl_to_quads_n; cbv zeta; apply Z.le_max_r).
+  unfold fl_to_quads, zrange. cbv zeta. rewrite map_map.
+  apply fl_drain. lia.
+Qed.
+
 (* owner: flatten_step *)
-Lemma sim_fl_step_all start last out el tolerance sqrt_tol :
-  sim_fl_step start last out el tolerance sqrt_tol (Gen.flatten_step start last out el tolerance sqrt_tol).
+Lemma sim_fl_step_all start last qb out el tolerance sqrt_tol :
+  sim_fl_step start last qb out el tolerance sqrt_tol (Gen.flatten_step start last qb out el tolerance sqrt_tol).
 Proof.
   unfold sim_fl_step, fl_step. cbv beta delta [Gen.flatten_step].
-  destruct el as [p|p|p1 p2|p1 p2 p3|]; try exact I; try reflexivity.
-  destruct last as [p0|]; [|cbn [app map]; rewrite app_nil_r; reflexivity].
-  cbv beta iota zeta.
-  rewrite push_loop.
-  unfold flatten_quad_pts, flatten_quad_ts, subdiv_count, zrange.
-  rewrite map_app, !map_map, <- app_assoc. reflexivity.
+  destruct el as [p|p|p1 p2|p1 p2 p3|]; try reflexivity.
+  - (* QuadTo *)
+    destruct last as [p0|]; [|cbn [app map]; rewrite app_nil_r; reflexivity].
+    cbv beta iota zeta.
+    rewrite push_loop.
+    unfold flatten_quad_pts, flatten_quad_ts, subdiv_count, zrange.
+    rewrite map_app, !map_map, <- app_assoc. reflexivity.
+  - (* CurveTo *)
+    destruct last as [p0|]; [|cbn [app map]; rewrite app_nil_r; reflexivity].
+    unfold flatten_cubic_pts, cubic_stage2, cubic_stage2_us, cubic_quad_buf.
+    cbv beta iota zeta delta [Gen.cubic_new Gen.TO_QUAD_TOL]. cbn [fst snd].
+    change ((sqrt_tol * fsqrt (fofZ 1 - to_quad_tol))%S) with (sqrt_remain sqrt_tol).
+    set (sr := sqrt_remain sqrt_tol).
+    set (c := mkCubic p0 p1 p2 p3).
+    change (KV.ToQuads.to_quads_count c (tolerance * to_quad_tol)%S) with (fl_to_quads_n c (tolerance * to_quad_tol)%S).
+    rewrite fl_drain_all.
+    generalize (fl_to_quads c (tolerance * to_quad_tol)%S). intro tqs.
+    (* first loop: quad_buf and the sum of the [val]s *)
+    set (mk := fun tq : T * T * QuadBez T => (snd tq, estimate_subdiv (snd tq) sr)).
+    match goal with |- context [?F tqs [] (fofZ 0)] =>
+      assert (E1 : forall (l : list (T * T * QuadBez T)) b s,
+                 F l b s = (b ++ map mk l, fold_left (fun s qp => (s + fp_val (snd qp))%S) (map mk l) s))
+    end.
+    { induction l as [|[[a b0] q] l IH]; intros b s; [cbn [map fold_left]; rewrite app_nil_r; reflexivity|].
+      cbn [map fold_left]. rewrite IH. unfold mk at 1 3. cbn [snd]. rewrite <- app_assoc. reflexivity. }
+    rewrite E1. clear E1. cbn [app].
+    change (fold_left (fun s qp => (s + fp_val (snd qp))%S) (map mk tqs) (fofZ 0)) with (fp_sum (map mk tqs)).
+    set (qbm := map mk tqs).
+    set (sum := fp_sum qbm).
+    cbv beta iota.
+    change (Z.max (fto_usize (fceil (flit 0x1p-1%float (1 # 2) * sum / sr)%S)) 1) with (subdiv_count sum sr).
+    set (n := subdiv_count sum sr).
+    set (step := (sum / fofZ n)%S).
+    (* second loop: per quadratic the [while] (the model's [cubic_inner]), around it the model's [cubic_outer] *)
+    match goal with |- context [?G qbm out 1%Z (fofZ 0)] =>
+      assert (E2 : forall (l : list (QuadBez T * FlattenParams T)) cb i vs,
+                 match cubic_outer l step n i vs with
+                 | Some uss => G l cb i vs = (qbm, cb ++ map (@LineTo T) (pieces_pts l uss ++ [p3]))
+                 | None => True
+                 end)
+    end.
+    { induction l as [|[q pr] l IH]; intros cb i vs; [reflexivity|].
+      cbn [cubic_outer]. cbv beta iota zeta.
+      match goal with |- context [?W (Z.to_nat (Z.sub (Z.add n 1) i)) cb i (fofZ i * step)%S] =>
+        assert (EW : forall fuel cb i tg,
+                   match cubic_inner fuel vs (fp_val pr) (f1 / fp_val pr)%S step n i tg with
+                   | Some (us, i') => fst (W fuel cb i tg) = (cb ++ map (fun u => LineTo (quad_eval q (determine_subdiv_t pr u))) us, i')
+                   | None => True
+                   end)
+      end.
+      { clear cb i. induction fuel as [|k IHk]; intros cb i tg.
+        - cbn [cubic_inner]. destruct (tg <? vs + fp_val pr)%S; [exact I|]. cbn [map fst]. rewrite app_nil_r. reflexivity.
+        - cbn [cubic_inner]. cbv beta iota zeta.
+          destruct (tg <? vs + fp_val pr)%S; [|cbn [map fst]; rewrite app_nil_r; reflexivity].
+          destruct (Z.eqb (i + 1) (n + 1)); [reflexivity|].
+          specialize (IHk (cb ++ [LineTo (quad_eval q (determine_subdiv_t pr ((tg - vs) * (f1 / fp_val pr))%S))]) (i + 1)%Z (fofZ (i + 1) * step)%S).
+          destruct (cubic_inner k vs (fp_val pr) (f1 / fp_val pr)%S step n (i + 1) (fofZ (i + 1) * step)%S) as [[us j]|]; [|exact I].
+          rewrite IHk. cbn [map]. rewrite <- app_assoc. reflexivity. }
+      specialize (EW (Z.to_nat (n + 1 - i)) cb i (fofZ i * step)%S).
+      destruct (cubic_inner (Z.to_nat (n + 1 - i)) vs (fp_val pr) (f1 / fp_val pr)%S step n i (fofZ i * step)%S) as [[us i']|]; [|exact I].
+      match type of EW with fst ?w = _ => destruct w as [[cb' i''] tg'] end.
+      cbn [fst] in EW. injection EW as -> ->.
+      specialize (IH (cb ++ map (fun u => LineTo (quad_eval q (determine_subdiv_t pr u))) us) i' (vs + fp_val pr)%S).
+      destruct (cubic_outer l step n i' (vs + fp_val pr)%S) as [uss|]; [|exact I].
+      rewrite IH. cbn [pieces_pts]. unfold piece_pts. cbn [fst snd].
+      rewrite !map_app, map_map. repeat rewrite <- app_assoc. reflexivity. }
+    specialize (E2 qbm out 1%Z (fofZ 0)).
+    change (@f0 T _) with (fofZ 0 : T).
+    destruct (cubic_outer qbm step n 1 (fofZ 0)) as [uss|]; [|exact I].
+    rewrite E2. reflexivity.
+Qed.
+
+(** ** the whole function: [sqrt_tol], the two [None]s, the empty [quad_buf] and the [for el in path] loop, which the
+    translator renders as a fold over the path calling the generated step ([for_step]; the body is not translated a second
+    time), against the model's [flatten] (= [flatten_gen true]).  [out] is what the callback had been handed before the call. *)
+Definition sim_flatten (path : list (PathEl T)) (tolerance : T) (out : list (PathEl T)) (g : list (PathEl T)) : Prop :=
+  match KV.Flatten.flatten tolerance path with
+  | Some r => g = out ++ r
+  | None => True
+  end.
+
+(* owner: flatten *)
+Lemma sim_flatten_all path tolerance out : sim_flatten path tolerance out (Gen.flatten path tolerance out).
+Proof.
+  unfold sim_flatten, KV.Flatten.flatten, flatten_gen. cbv beta zeta delta [Gen.flatten].
+  set (sq := fsqrt tolerance).
+  match goal with |- context [?F path None None [] out] =>
+    assert (E : forall els start last qb out,
+               match flatten_from true tolerance sq (start, last) els with
+               | Some r => F els start last qb out = out ++ r
+               | None => True
+               end)
+  end.
+  { clear path out. induction els as [|e els IH]; intros start last qb out.
+    - cbn [flatten_from]. symmetry; apply app_nil_r.
+    - cbn [flatten_from]. pose proof (sim_fl_step_all start last qb out e tolerance sq) as Hs. unfold sim_fl_step in Hs.
+      destruct (fl_step true tolerance sq (start, last) e) as [[[s' l'] em]|]; [|exact I].
+      destruct (Gen.flatten_step start last qb out e tolerance sq) as [[[[o s] l] qb'] c] eqn:Eg.
+      injection Hs as -> -> -> ->.
+      specialize (IH s' l' qb' (out ++ em)).
+      destruct (flatten_from true tolerance sq (s', l') els) as [r|]; [|exact I].
+      cbv beta iota zeta. rewrite ?Eg. cbv beta iota. rewrite IH. symmetry; apply app_assoc. }
+  apply (E path None None [] out).
 Qed.
 End F.
 
-Lemma br_flatten_step : forall (T : Type) (S : Scalar T) (start_pt_ : (option (Point T))) (last_pt_ : (option (Point T))) (callback_ : (list (PathEl T))) (el_ : (PathEl T)) (tolerance_ : T) (sqrt_tol_ : T), KVBridge.Flatten_bridge.sim_fl_step start_pt_ last_pt_ callback_ el_ tolerance_ sqrt_tol_ (Gen.flatten_step start_pt_ last_pt_ callback_ el_ tolerance_ sqrt_tol_).
+Lemma br_flatten : forall (T : Type) (S : Scalar T) (path_ : (list (PathEl T))) (tolerance_ : T) (callback_ : (list (PathEl T))), KVBridge.Flatten_bridge.sim_flatten path_ tolerance_ callback_ (Gen.flatten path_ tolerance_ callback_).
+Proof. intros. apply sim_flatten_all. Qed.
+
+Lemma br_flatten_step : forall (T : Type) (S : Scalar T) (start_pt_ : (option (Point T))) (last_pt_ : (option (Point T))) (quad_buf_ : (list ((QuadBez T) * (KV.Flatten.FlattenParams T))%type)) (callback_ : (list (PathEl T))) (el_ : (PathEl T)) (tolerance_ : T) (sqrt_tol_ : T), KVBridge.Flatten_bridge.sim_fl_step start_pt_ last_pt_ quad_buf_ callback_ el_ tolerance_ sqrt_tol_ (Gen.flatten_step start_pt_ last_pt_ quad_buf_ callback_ el_ tolerance_ sqrt_tol_).
 Proof. intros. apply sim_fl_step_all. Qed.
